@@ -497,6 +497,9 @@ def run(chk, tier):
             chk.fail('R5', inst, fn_loc(fbuild), 'Builder::build %s (%s, %s, %s) but the per-cell analyses assume it is %s' % ('accepts' if acc else 'rejects', k[0], k[1], k[2], 'accepted' if mirror else 'rejected'),
                      key='R5|accept|%s,%s,%s' % k)
     run_sub(chk, 'c07', 'C07.', {'R4'})
+    # the limits stay the configured ones for the whole run: the State built by `new` and rebuilt by `clear` gets each StateConfig field from
+    # the tracer parameter of the same name
+    run_sub(chk, 'c20', 'C20.', {'O6'})
     from .c10 import builder_rejects_zero_first_ttl
     if builder_rejects_zero_first_ttl(prog):
         chk.ok('R5', 'first_ttl>=1', 'Builder::build rejects first_ttl < 1 (the aggregator indexes hops by ttl − 1)')
